@@ -170,10 +170,11 @@ def plan(tier, seed):
         if tier == "quick":
             pre += ["not xa"]
             cname = u.name[4:]
+            pre += ["m0 in (0, 2, 4, 6)", "m1 in (0, 1, 3, 5)", "m2 in (0, 1, 2, 6)"]
             if cname != "MG":
-                pre += ["m0 in (0, 2, 4, 6)", "m1 in (0, 1, 3, 5)", "m2 in (0, 1, 2, 6)"]
+                pre += ["m0 in (0, 2, 6)", "m1 in (0, 1, 5)"]
             if cname == "SMG":
-                pre += ["ds in (0, 1, 8, 9)"]
+                pre += ["ds in (0, 1, 8, 9)", "ds in (0, 8) or m2 == 0"]
             if cname == "CRG":
                 pre += ["role in (0, 1, 3)"]
             if cname == "SCRG":
